@@ -134,6 +134,8 @@ def run():
             ck.stat("tokens", "tokenizer-error")
             continue
         bad = [t for t in a["toks"] if t[0] in ("Comment", "SemiColon")]
+        # a numeral with a type suffix (sqlparser prints the `long` flag of Value::Number as L): a numeral of none of the twelve dialects
+        bad += [["LongSuffixNumber", t[1]] for t in a["toks"] if t[0] == "Number" and t[1][-1:] in "Ll"]
         glued = 0
         for t, u in zip(a["toks"], a["toks"][1:]):
             if t[2] == u[2] and t[4] == u[3]:
@@ -142,7 +144,7 @@ def run():
                     bad.append(["GluedOpener", t[1] + u[1]])
         ck.stat("tokens", "glued-pairs", glued)
         if bad:
-            report(r, "tokens", "token stream contains %s %r: not a single statement" % (bad[0][0], bad[0][1][:40]))
+            report(r, "tokens", "token stream contains %s %r: %s" % (bad[0][0], bad[0][1][:40], "not a numeral of the dialect" if bad[0][0] == "LongSuffixNumber" else "not a single statement"))
 
     # ------------------------------------------------------------------ (b) model AST, scope + dialect verdicts
     I = A.Interner()
@@ -346,6 +348,8 @@ CLAUSE_DIRECTED = [
     # a take in front of a distinct shares its SELECT (relational finding F19): the forced ORDER BY key is the first select item
     "from t\nselect {a}\ntake 3\ngroup {a} (take 1)", "from t\nselect {x = a + 1, b}\ntake 2..5\ngroup {x, b} (take 1)", "from t\ntake 4\ngroup {a, b, c, g, id} (take 1)",
     "from t\nselect {a, b}\ntake 2..\ngroup {a, b} (take 1)",
+    # LIMIT at and beyond 2^32: expr_of_i64 sets the `long` flag (C07-N17)
+    "from t\ntake 4294967295", "from t\ntake 4294967296", "from t\ntake 3..4294967300", "from t\nsort a\ntake 2..\ntake ..4294967296",
 ]
 
 
@@ -485,7 +489,7 @@ def clauses_stream(ck, info, names, cases):
             continue
         if tag == 1:
             lk, lz, ls, off, fe, od = body
-            got = {"limit": None if lk == 0 else (str(lz) if lk == 1 else "".join(chr(c) for c in ls)),
+            got = {"limit": None if lk == 0 else (str(lz) if lk == 1 else str(lz) + "L" if lk == 3 else "".join(chr(c) for c in ls)),
                    "offset": None if off[0] == 0 else {"value": str(off[1]), "rows": "Rows" if off[2] else "None"},
                    "fetch": None if fe[0] == 0 else str(fe[1])}
             if od[0] == 0:
